@@ -21,12 +21,23 @@ def run(ctx):
     for (script, meta), a, m in zip(cases, impl, mod):
         mism = [x for x in proglib.compare_case(script, a, m) if x["cls"] in ("utc", "fault")]
         ctx.count(("file", script), nontrivial=not meta.get("trivial"), sample=None)
+        io = a.split(";")
+        for (oi, lo, hi) in meta.get("anchors", []):
+            if mism or oi >= len(io):
+                break
+            at = io[oi].split()
+            ok = len(at) >= 3 and at[0] == "s2t" and at[1] == "0" and lo <= int(at[2]) <= hi
+            if not ok:
+                op = script.split(";")[oi]
+                mism = [dict(op_index=oi, op=op, cls="utc", impl=io[oi], model="s2t 0 %d%s" % (lo, "" if lo == hi else " .. %d" % hi),
+                             why="sample id -> time through the reader's time map is not anchored at a stored pair" if lo == hi else
+                                 "sample id -> time through the reader's time map leaves the times of the two neighbouring stored pairs")]
         if mism:
             nviol += 1
             if nviol <= 20:
                 ctx.violation("c12_file_%d.txt" % nviol, proglib.replay_text(script, "plain", mism), "UTC round trip: %s (%s)" % (mism[0]["why"], mism[0]["op"][:60]))
     ctx.extra["file_half_cases"] = n
-    ctx.cov["rule"] = (ctx.cov.get("rule") or "") + " || file half: writer programs with 0..1300 UTC entries (decimation 10/11/13/100, first sample id 0/5/-7/10^6/2^40, rates 1..10^9, irregular spacing), iteration from ids before/at/between/after entries and with stopping callbacks, compared with extracted Spec.utc_from"
+    ctx.cov["rule"] = (ctx.cov.get("rule") or "") + " || file half: writer programs with 0..1300 UTC entries (decimation 10/11/13/100, first sample id 0/5/-7/10^6/2^40, rates 1..10^9, irregular spacing), iteration from ids before/at/between/after entries and with stopping callbacks, compared with extracted Spec.utc_from; decimations 2001/2500/4100 with 1999..4700 entries (time map grows more than once per chunk); jls_rd_sample_id_to_timestamp through the reader-built time map exact at stored pairs (first/last/random/around 1024, 2000, 2048, 4096 and the decimation) and between neighbours"
     if ctx.tier == "thorough":
         vlib.coqchk(ctx, [f[:-2] for f in PROP_FILES])
     return vlib.finish(ctx, "proof", "make -C /verif/coq -f Makefile.coq %s; coqc -Q . JLS <each> (Print Assumptions)" % " ".join(f.replace(".v", ".vo") for f in PROP_FILES),
